@@ -448,7 +448,7 @@ func (c *Ctx) c12EvictLeast(b BK) {
 			if call, ok := n.(*ast.CallExpr); ok {
 				if sel, ok := call.Fun.(*ast.SelectorExpr); ok {
 					if id, ok := sel.X.(*ast.Ident); ok {
-						if pn, ok := info.Uses[id].(*types.PkgName); ok && pn.Imported().Path() == "sort" && (sel.Sel.Name == "Slice" || sel.Sel.Name == "SliceStable") {
+						if pn, ok := info.Uses[id].(*types.PkgName); ok && pn.Imported().Path() == "sort" && (sel.Sel.Name == "Slice" || sel.Sel.Name == "SliceStable" || sel.Sel.Name == "Sort" || sel.Sel.Name == "Stable") {
 							sortCall = call
 						}
 					}
@@ -482,6 +482,45 @@ func (c *Ctx) c12EvictLeast(b BK) {
 							okCmp = li == pi && ri == pj
 						case token.GTR, token.GEQ:
 							okCmp = li == pj && ri == pi
+						}
+					}
+				}
+			}
+		}
+	}
+	// sort.Sort(T(entries)): the comparator is T's Less method
+	if sortCall != nil && len(sortCall.Args) == 1 {
+		arg := ast.Unparen(sortCall.Args[0])
+		if conv, ok := arg.(*ast.CallExpr); ok && len(conv.Args) == 1 {
+			if id, ok := ast.Unparen(conv.Args[0]).(*ast.Ident); ok {
+				sorted = info.Uses[id]
+			}
+		} else if id, ok := arg.(*ast.Ident); ok {
+			sorted = info.Uses[id]
+		}
+		if t := info.TypeOf(arg); t != nil {
+			if less, _, _ := types.LookupFieldOrMethod(t, true, c.Pkg.Types, "Less"); less != nil {
+				if lf, _ := less.(*types.Func); lf != nil {
+					if d := c.declOf(lf); d != nil && d.Body != nil && len(d.Body.List) == 1 && d.Recv != nil && len(d.Recv.List) == 1 && len(d.Recv.List[0].Names) == 1 {
+						recvObj := info.Defs[d.Recv.List[0].Names[0]]
+						var names []*ast.Ident
+						for _, f := range d.Type.Params.List {
+							names = append(names, f.Names...)
+						}
+						if ret, ok := d.Body.List[0].(*ast.ReturnStmt); ok && len(ret.Results) == 1 && len(names) == 2 {
+							pi, pj := info.Defs[names[0]], info.Defs[names[1]]
+							if be, ok := ast.Unparen(ret.Results[0]).(*ast.BinaryExpr); ok {
+								li, lfn := indexedField(info, be.X, recvObj)
+								ri, rfn := indexedField(info, be.Y, recvObj)
+								if lfn != "" && lfn == rfn {
+									switch be.Op {
+									case token.LSS, token.LEQ:
+										okCmp = li == pi && ri == pj
+									case token.GTR, token.GEQ:
+										okCmp = li == pj && ri == pi
+									}
+								}
+							}
 						}
 					}
 				}
@@ -694,12 +733,32 @@ func (c *Ctx) c12Wiring(b BK) {
 		}
 		// the metric closure loads the right field atomically
 		loads, other := false, false
+		// the metric is a function literal or a declared function handed over by name
+		var metricBodies []*ast.BlockStmt
 		ast.Inspect(fd.Body, func(n ast.Node) bool {
-			lit, isLit := n.(*ast.FuncLit)
-			if !isLit {
-				return true
+			switch x := n.(type) {
+			case *ast.FuncLit:
+				metricBodies = append(metricBodies, x.Body)
+				return false
+			case *ast.CallExpr:
+				for _, a := range x.Args {
+					ax := ast.Unparen(a)
+					if ix, ok := ax.(*ast.IndexExpr); ok {
+						ax = ix.X // generic instantiation f[V]
+					}
+					if id, ok := ax.(*ast.Ident); ok {
+						if fobj, _ := c.Pkg.TypesInfo.Uses[id].(*types.Func); fobj != nil && fobj.Pkg() == c.Pkg.Types {
+							if d := c.declOf(fobj); d != nil && d.Body != nil {
+								metricBodies = append(metricBodies, d.Body)
+							}
+						}
+					}
+				}
 			}
-			ast.Inspect(lit.Body, func(m ast.Node) bool {
+			return true
+		})
+		for _, mb := range metricBodies {
+			ast.Inspect(mb, func(m ast.Node) bool {
 				if u, isU := m.(*ast.UnaryExpr); isU && u.Op == token.AND {
 					if sel, isSel := u.X.(*ast.SelectorExpr); isSel && sel.Sel.Name == w.field {
 						loads = true
@@ -714,8 +773,7 @@ func (c *Ctx) c12Wiring(b BK) {
 				}
 				return true
 			})
-			return false
-		})
+		}
 		if loads && !other {
 			r.OK("R12.3", name, "ranks by entry."+w.field)
 		} else {
